@@ -131,6 +131,11 @@ Fresh == (res.op = "load" /\ res.ok) => res.dl >= now
 (* Auth and Fresh for an observed result (used by CookieTrace): the accepted pair is one issued *)
 (* record among `live' = the issued records of the configuration the cookie decodes to          *)
 AuthFreshP(ok, p, dl, live, t) == ok => \E r \in live : r.p = p /\ r.dl = dl /\ r.dl >= t
+(* The same on the full time_t range: TLC integers have 32 bits, so traces carry a 64-bit     *)
+(* time as three limbs <<a, b, c>>, t = a*2^48 + b*2^24 + c with 0 <= b, c < 2^24 (a signed); *)
+(* the numeric order is the lexicographic order of the limbs.                                  *)
+GeqW(x, y) == x[1] > y[1] \/ (x[1] = y[1] /\ (x[2] > y[2] \/ (x[2] = y[2] /\ x[3] >= y[3])))
+AuthFreshW(ok, p, dl, live, t) == ok => \E r \in live : r.p = p /\ r.dl = dl /\ GeqW(r.dl, t)
 Cleared == (res.op = "load" /\ ~res.ok) => res.cleared
 
 (* the rule CookieTrace applies: accepted iff 'C' + a text that decodes to a cipher *)
